@@ -576,7 +576,12 @@ class Prop(Check):
         "Reg.C26_gen_entrypoints_survive_clear",
         "Reg.C26_for_file_exact",
         "Reg.C26_language_for_file_unique",
+        "Reg.C26_cache_hit_until",
         "Reg.C26_cache_hit",
+        "Reg.C26_cache_hit_file",
+        "Reg.C26_mm_for_file",
+        "Reg.C26_mm_for_file_history",
+        "Reg.C26_mms_for_file",
         "Reg.C26_cache_fresh",
         "Reg.C26_cache_instance",
         "Reg.C26_cache_not_stale",
